@@ -37,6 +37,7 @@ def run(eng, rep) -> None:
         "not reach an allocation. The decode entry point must build its buffer per call from the input alone and start at bit 0."
     )
     rep.rule("R16.1", "every store read is dominated by a raising bounds test on the same index (>= len), or goes through such a method")
+    rep.rule("R16.4", "decoded element counts are used as the unsigned word that was read (no signed reinterpretation: a negative count reads nothing and raises nothing)")
     rep.rule("R16.2", "decoded counts bound only loops that read on every iteration; no allocation sized by a decoded value")
     rep.rule("R16.3", "decode() creates its buffer per call, fills it from the input only, and reads from bit 0")
     rep.assume("fixed-size array loops (range(type.size)) assume size >= 1 ([[u8, 0]] is the pathological schema)")
@@ -127,6 +128,45 @@ def run(eng, rep) -> None:
                 if isinstance(a0, ast.Call) and dotted(a0.func) == "range" and {x.id for x in ast.walk(a0) if isinstance(x, ast.Name)} & tainted:
                     rep.violation("R16.2", f.file, f.qual, norm(n, 60), "materialises range(<decoded length>)")
     rep.floor("R16.2", "loops whose trip count is decoded from the input", n_loops, 2)
+
+    # ---- R16.4 ---------------------------------------------------------------------
+    from .codec_py import parser_type_classes, grammar_of
+    from ..effects import Unsupported, WordV
+    disp = find_dispatcher(eng, DEC)
+    n_cnt = 0
+    if disp is not None:
+        for K in parser_type_classes(eng):
+            kn = K.split(".")[-1]
+            try:
+                effs, it = grammar_of(eng, pr, disp, K, "dec")
+            except Unsupported:
+                continue
+
+            def loops(es):
+                for e in es:
+                    if e[0] == "loop":
+                        yield e
+                        yield from loops(e[2])
+                    elif e[0] == "if":
+                        yield from loops(e[2])
+            for lp in loops(effs):
+                c = lp[1]
+                if isinstance(c, int) or (isinstance(c, tuple) and c and c[0] in ("size", "fields")):
+                    continue
+                n_cnt += 1
+                if isinstance(c, tuple) and c[0] == "var" and isinstance(c[1], WordV):
+                    rep.ok("R16.4", disp.file, disp.qual, "Eff_dec(%s): loop count" % kn, "the count is the raw (unsigned) word read from the input")
+                    continue
+                if isinstance(c, tuple) and c[0] == "mul" and isinstance(c[1], WordV):
+                    rep.ok("R16.4", disp.file, disp.qual, "Eff_dec(%s): loop count" % kn, "the count is a multiple of the raw (unsigned) word")
+                    continue
+                signed = [fmt for kind, fmt, nbytes in it.fmt_pairs if kind == "unpack" and isinstance(fmt, str) and fmt.lstrip("<>=!@")[-1:] in ("b", "h", "i", "l", "q", "n")]
+                if signed:
+                    rep.violation("R16.4", disp.file, disp.qual, "Eff_dec(%s): loop count via struct.unpack(%r)" % (kn, signed[0]),
+                                  "the length prefix is reinterpreted as a signed integer: a corrupted prefix with the top bit set becomes a negative count, the element loop reads nothing and the rest of the message is decoded from the wrong offset without any error")
+                else:
+                    rep.undecided("R16.4", disp.file, disp.qual, "Eff_dec(%s): loop count %s" % (kn, str(c)[:60]), "count is not the raw word read from the input; conversion not decided")
+    rep.floor("R16.4", "data-dependent element loops in the decoder grammars", n_cnt, 2)
 
     # ---- R16.3 ---------------------------------------------------------------------
     dec = prog.func(DEC)
